@@ -1,9 +1,707 @@
 package main
 
-// Replay of solver counterexamples against the real code (go test -overlay; nothing is written into /repo).
+// Replay of solver counterexamples against the real code: the model's input part is concretised into Go
+// literals, an in-package test is generated and run with `go test -overlay` (nothing is written into /repo).
+
+import (
+	"bytes"
+	"context"
+	"encoding/json"
+	"fmt"
+	"go/types"
+	"os"
+	"os/exec"
+	"path/filepath"
+	"sort"
+	"strconv"
+	"strings"
+	"time"
+
+	"golang.org/x/tools/go/ssa"
+)
+
+// ---- s-expressions ----
+
+type sexp struct {
+	atom string
+	list []*sexp
+	isStr bool
+}
+
+func parseSexps(s string) []*sexp {
+	var out []*sexp
+	i := 0
+	var parse func() *sexp
+	skip := func() {
+		for i < len(s) && (s[i] == ' ' || s[i] == '\n' || s[i] == '\t' || s[i] == '\r') {
+			i++
+		}
+	}
+	parse = func() *sexp {
+		skip()
+		if i >= len(s) {
+			return nil
+		}
+		switch s[i] {
+		case '(':
+			i++
+			n := &sexp{list: []*sexp{}}
+			for {
+				skip()
+				if i >= len(s) {
+					return n
+				}
+				if s[i] == ')' {
+					i++
+					return n
+				}
+				c := parse()
+				if c == nil {
+					return n
+				}
+				n.list = append(n.list, c)
+			}
+		case '"':
+			j := i + 1
+			for j < len(s) {
+				if s[j] == '"' {
+					if j+1 < len(s) && s[j+1] == '"' {
+						j += 2
+						continue
+					}
+					break
+				}
+				j++
+			}
+			a := s[i : j+1]
+			i = j + 1
+			return &sexp{atom: a, isStr: true}
+		case '|':
+			j := strings.IndexByte(s[i+1:], '|')
+			a := s[i : i+j+2]
+			i += j + 2
+			return &sexp{atom: a}
+		default:
+			j := i
+			for j < len(s) && !strings.ContainsRune(" \n\t\r()", rune(s[j])) {
+				j++
+			}
+			a := s[i:j]
+			i = j
+			return &sexp{atom: a}
+		}
+	}
+	for {
+		skip()
+		if i >= len(s) {
+			break
+		}
+		if s[i] == ')' {
+			i++
+			continue
+		}
+		e := parse()
+		if e == nil {
+			break
+		}
+		out = append(out, e)
+	}
+	return out
+}
+
+func (e *sexp) String() string {
+	if e.list == nil {
+		return e.atom
+	}
+	var ps []string
+	for _, c := range e.list {
+		ps = append(ps, c.String())
+	}
+	return "(" + strings.Join(ps, " ") + ")"
+}
+
+func (e *sexp) head() string {
+	if e.list != nil && len(e.list) > 0 && e.list[0].list == nil {
+		return e.list[0].atom
+	}
+	return ""
+}
+
+func sexpInt(e *sexp) (int64, bool) {
+	if e.list == nil {
+		v, err := strconv.ParseInt(e.atom, 10, 64)
+		return v, err == nil
+	}
+	if e.head() == "-" && len(e.list) == 2 {
+		v, ok := sexpInt(e.list[1])
+		return -v, ok
+	}
+	return 0, false
+}
+
+// seqElems flattens a sequence value.
+func seqElems(e *sexp) []*sexp {
+	if e.list == nil {
+		return nil
+	}
+	switch e.head() {
+	case "seq.++", "str.++":
+		var out []*sexp
+		for _, c := range e.list[1:] {
+			out = append(out, seqElems(c)...)
+		}
+		return out
+	case "seq.unit":
+		return []*sexp{e.list[1]}
+	case "as":
+		return nil // (as seq.empty ...)
+	}
+	return nil
+}
+
+// ---- model ----
+
+type modelCtx struct {
+	c      *FnCtx
+	vals   map[int]*sexp // term id -> value
+	floats map[string]float64
+	warn   []string
+	opaque int
+}
+
+// replayTerms lists the terms whose values are needed to rebuild the inputs.
+func (c *FnCtx) replayTerms() []*Term {
+	var out []*Term
+	seen := map[int]bool{}
+	add := func(t *Term) {
+		if t != nil && !seen[t.id] && t.kind != kLit {
+			seen[t.id] = true
+			out = append(out, t)
+		}
+	}
+	for _, in := range c.inputs {
+		add(in)
+	}
+	for _, r := range c.mapReads {
+		add(r.m)
+		add(r.k)
+		add(r.ok)
+		add(r.val)
+		add(r.ln)
+	}
+	for _, r := range c.ptrReads {
+		add(r.obj)
+		add(r.val)
+	}
+	for _, g := range c.globalReads {
+		add(g.init)
+	}
+	return out
+}
+
+type mapRead struct {
+	mt             types.Type
+	m, k, ok, val, ln *Term
+}
+type ptrRead struct {
+	heap     string
+	obj, val *Term
+}
+
+func parseModel(c *FnCtx, terms []*Term, output string) *modelCtx {
+	mc := &modelCtx{c: c, vals: map[int]*sexp{}, floats: map[string]float64{}}
+	// output: first line sat, then ((t v) (t v) ...)
+	idx := strings.Index(output, "((")
+	if idx < 0 {
+		return mc
+	}
+	es := parseSexps(output[idx:])
+	if len(es) == 0 || es[0].list == nil {
+		return mc
+	}
+	pairs := es[0].list
+	for i, p := range pairs {
+		if i >= len(terms) || p.list == nil || len(p.list) != 2 {
+			break
+		}
+		mc.vals[terms[i].id] = p.list[1]
+	}
+	return mc
+}
+
+func (mc *modelCtx) val(t *Term) *sexp {
+	if t == nil {
+		return nil
+	}
+	if t.kind == kLit {
+		return &sexp{atom: t.op, isStr: t.sort == SString}
+	}
+	return mc.vals[t.id]
+}
+
+func goString(e *sexp) string {
+	if e == nil {
+		return `""`
+	}
+	if e.isStr {
+		return strconv.Quote(unquoteSMT(e.atom))
+	}
+	// str.++ of pieces
+	if e.list != nil && e.head() == "str.++" {
+		var sb strings.Builder
+		for _, c := range e.list[1:] {
+			if c.isStr {
+				sb.WriteString(unquoteSMT(c.atom))
+			}
+		}
+		return strconv.Quote(sb.String())
+	}
+	return `""`
+}
+
+// goValue renders a model value of Go type t as a Go expression.
+func (mc *modelCtx) goValue(t types.Type, e *sexp, depth int) string {
+	qual := types.RelativeTo(mc.c.eng.ld.Pkg)
+	ts := types.TypeString(t, qual)
+	if e == nil {
+		return "*new(" + ts + ")"
+	}
+	switch u := t.Underlying().(type) {
+	case *types.Basic:
+		switch {
+		case u.Info()&types.IsString != 0:
+			return ts + "(" + goString(e) + ")"
+		case u.Info()&types.IsBoolean != 0:
+			return ts + "(" + e.atom + ")"
+		case u.Info()&types.IsInteger != 0:
+			v, _ := sexpInt(e)
+			return ts + "(" + strconv.FormatInt(v, 10) + ")"
+		case u.Info()&types.IsFloat != 0:
+			return ts + "(" + mc.float(e) + ")"
+		}
+	case *types.Interface:
+		return mc.goIface(e, depth)
+	case *types.Slice:
+		if isByte(u.Elem()) {
+			return ts + "(" + goString(e) + ")"
+		}
+		var parts []string
+		for _, el := range seqElems(e) {
+			parts = append(parts, mc.goValue(u.Elem(), el, depth+1))
+		}
+		return ts + "{" + strings.Join(parts, ", ") + "}"
+	case *types.Array:
+		var parts []string
+		for _, el := range seqElems(e) {
+			parts = append(parts, mc.goValue(u.Elem(), el, depth+1))
+		}
+		return ts + "{" + strings.Join(parts, ", ") + "}"
+	case *types.Map:
+		id, _ := sexpInt(e)
+		return mc.goMap(t, id, depth)
+	case *types.Pointer:
+		id, _ := sexpInt(e)
+		if id == 0 {
+			return "(" + ts + ")(nil)"
+		}
+		return mc.goPointer(u, id, depth)
+	case *types.Signature:
+		id, _ := sexpInt(e)
+		if id == 0 {
+			return "(" + ts + ")(nil)"
+		}
+		mc.warn = append(mc.warn, "function value in model replaced by nil")
+		return "(" + ts + ")(nil)"
+	case *types.Struct:
+		// (mk!S f0 f1 ...)
+		if e.list != nil && len(e.list) == u.NumFields()+1 {
+			var parts []string
+			for i := 0; i < u.NumFields(); i++ {
+				parts = append(parts, u.Field(i).Name()+": "+mc.goValue(u.Field(i).Type(), e.list[i+1], depth+1))
+			}
+			return ts + "{" + strings.Join(parts, ", ") + "}"
+		}
+	}
+	mc.warn = append(mc.warn, "cannot concretise value of type "+ts+": "+e.String())
+	return "*new(" + ts + ")"
+}
+
+func (mc *modelCtx) float(e *sexp) string {
+	k := e.String()
+	if v, ok := mc.floats[k]; ok {
+		return strconv.FormatFloat(v, 'g', -1, 64)
+	}
+	v := 1.5 + float64(len(mc.floats))
+	mc.floats[k] = v
+	return strconv.FormatFloat(v, 'g', -1, 64)
+}
+
+func (mc *modelCtx) goIface(e *sexp, depth int) string {
+	if e.list == nil {
+		if e.atom == "VNil" {
+			return "interface{}(nil)"
+		}
+		return "interface{}(nil)"
+	}
+	if depth > 6 {
+		return "interface{}(nil)"
+	}
+	switch e.head() {
+	case "VStr":
+		return "interface{}(" + goString(e.list[1]) + ")"
+	case "VBool":
+		return "interface{}(" + e.list[1].atom + ")"
+	case "VInt":
+		v, _ := sexpInt(e.list[1])
+		return fmt.Sprintf("interface{}(int(%d))", v)
+	case "VI64":
+		v, _ := sexpInt(e.list[1])
+		return fmt.Sprintf("interface{}(int64(%d))", v)
+	case "VU64":
+		v, _ := sexpInt(e.list[1])
+		if v < 0 {
+			v = 0
+		}
+		return fmt.Sprintf("interface{}(uint64(%d))", v)
+	case "VF64":
+		return "interface{}(float64(" + mc.float(e.list[1]) + "))"
+	case "VMap":
+		id, _ := sexpInt(e.list[1])
+		return "interface{}(" + mc.goMap(types.NewMap(types.Typ[types.String], types.NewInterfaceType(nil, nil)), id, depth+1) + ")"
+	case "VList":
+		var parts []string
+		for _, el := range seqElems(e.list[1]) {
+			parts = append(parts, mc.goIface(el, depth+1))
+		}
+		return "interface{}([]interface{}{" + strings.Join(parts, ", ") + "})"
+	case "VBox":
+		tid, _ := sexpInt(e.list[1])
+		payload, _ := sexpInt(e.list[2])
+		if t, ok := mc.c.eng.tc.tidTypes[int(tid)]; ok {
+			qual := types.RelativeTo(mc.c.eng.ld.Pkg)
+			if _, isMap := t.Underlying().(*types.Map); isMap {
+				return "interface{}(" + types.TypeString(t, qual) + "(" + mc.goMap(t.Underlying(), payload, depth+1) + "))"
+			}
+			if b, isB := t.Underlying().(*types.Basic); isB && b.Info()&types.IsInteger != 0 {
+				return fmt.Sprintf("interface{}(%s(%d))", types.TypeString(t, qual), payload)
+			}
+		}
+		mc.opaque++
+		return fmt.Sprintf("interface{}(verifOpaque(%d))", mc.opaque)
+	}
+	return "interface{}(nil)"
+}
+
+// goMap rebuilds the map object with the given id from the lookups recorded while generating the VC.
+func (mc *modelCtx) goMap(t types.Type, id int64, depth int) string {
+	qual := types.RelativeTo(mc.c.eng.ld.Pkg)
+	ts := types.TypeString(t, qual)
+	if id == 0 {
+		return ts + "(nil)"
+	}
+	mt := t.Underlying().(*types.Map)
+	entries := map[string]string{}
+	var wantLen int64 = -1
+	for _, r := range mc.c.mapReads {
+		if typeKey(r.mt.Underlying()) != typeKey(mt) {
+			continue
+		}
+		mv := mc.val(r.m)
+		if mv == nil {
+			continue
+		}
+		if v, ok := sexpInt(mv); !ok || v != id {
+			continue
+		}
+		if r.ln != nil {
+			if lv := mc.val(r.ln); lv != nil {
+				if n, ok := sexpInt(lv); ok && n > wantLen {
+					wantLen = n
+				}
+			}
+		}
+		if r.k == nil {
+			continue
+		}
+		okv := mc.val(r.ok)
+		if okv == nil || okv.atom != "true" {
+			continue
+		}
+		kexpr := mc.goValue(mt.Key(), mc.val(r.k), depth+1)
+		if _, dup := entries[kexpr]; dup {
+			continue
+		}
+		if depth > 6 {
+			entries[kexpr] = "nil"
+			continue
+		}
+		entries[kexpr] = mc.goValue(mt.Elem(), mc.val(r.val), depth+1)
+	}
+	var ks []string
+	for k := range entries {
+		ks = append(ks, k)
+	}
+	sort.Strings(ks)
+	var parts []string
+	for _, k := range ks {
+		parts = append(parts, k+": "+entries[k])
+	}
+	// honour the length demanded by the model with dummy keys
+	if _, isStr := mt.Key().Underlying().(*types.Basic); isStr && wantLen > int64(len(parts)) && wantLen < 64 {
+		for i := int64(len(parts)); i < wantLen; i++ {
+			parts = append(parts, fmt.Sprintf("%q: %s", fmt.Sprintf("verif_dummy_%d", i), mc.goValue(mt.Elem(), nil, depth+1)))
+		}
+	}
+	return ts + "{" + strings.Join(parts, ", ") + "}"
+}
+
+func (mc *modelCtx) goPointer(pt *types.Pointer, id int64, depth int) string {
+	qual := types.RelativeTo(mc.c.eng.ld.Pkg)
+	el := pt.Elem()
+	els := types.TypeString(el, qual)
+	if isOpaqueStruct(el) {
+		mc.warn = append(mc.warn, "pointer to opaque "+els+" replaced by new value")
+		return "new(" + els + ")"
+	}
+	if st, ok := el.Underlying().(*types.Struct); ok {
+		var parts []string
+		for i := 0; i < st.NumFields(); i++ {
+			hn := "F:" + typeKey(el) + "." + st.Field(i).Name()
+			for _, r := range mc.c.ptrReads {
+				if r.heap != hn {
+					continue
+				}
+				if ov := mc.val(r.obj); ov != nil {
+					if v, ok := sexpInt(ov); ok && v == id {
+						parts = append(parts, st.Field(i).Name()+": "+mc.goValue(st.Field(i).Type(), mc.val(r.val), depth+1))
+						break
+					}
+				}
+			}
+		}
+		return "&" + els + "{" + strings.Join(parts, ", ") + "}"
+	}
+	hn := "P:" + typeKey(el)
+	for _, r := range mc.c.ptrReads {
+		if r.heap != hn {
+			continue
+		}
+		if ov := mc.val(r.obj); ov != nil {
+			if v, ok := sexpInt(ov); ok && v == id {
+				return "verifPtr_" + sanitizeIdent(els) + "(" + mc.goValue(el, mc.val(r.val), depth+1) + ")"
+			}
+		}
+	}
+	return "new(" + els + ")"
+}
+
+func sanitizeIdent(s string) string {
+	var sb strings.Builder
+	for _, c := range s {
+		if (c >= 'a' && c <= 'z') || (c >= 'A' && c <= 'Z') || (c >= '0' && c <= '9') {
+			sb.WriteRune(c)
+		} else {
+			sb.WriteByte('_')
+		}
+	}
+	return sb.String()
+}
+
+// ---- test generation ----
 
 func tryReplay(o *Obligation, repo, scratch string) (string, bool) {
-	return "replay not available for this obligation kind; model:\n" + firstLines(o.Model, 60), false
+	c := o.Ctx
+	if c == nil || c.top == nil {
+		return "no context for replay", false
+	}
+	fn := c.top
+	if fn.Name() == "init" || c.eng.isGhostFn(fn) {
+		return "replay not applicable: " + fn.Name() + " is not callable from a test; model:\n" + firstLines(o.Model, 40), false
+	}
+	terms := c.replayTerms()
+	// re-run the winning solver asking for the values of all replay terms
+	out := o.Model
+	if o.SMTFile != "" && len(terms) > 0 {
+		if r := rerunForValues(o, terms, scratch); r != "" {
+			out = r
+		}
+	}
+	mc := parseModel(c, terms, out)
+	var sb strings.Builder
+	pkg := c.eng.ld.Pkg
+	qual := types.RelativeTo(pkg)
+	sb.WriteString("//go:build verif\n// +build verif\n\npackage " + pkg.Name() + "\n\nimport (\n\t\"fmt\"\n\t\"testing\"\n)\n\n")
+	sb.WriteString("type verifOpaque int\n\n")
+	ptrHelpers := map[string]string{}
+	// inputs
+	var argExprs []string
+	var decls []string
+	for i, p := range fn.Params {
+		var v *sexp
+		if i < len(c.inputs) {
+			v = mc.val(c.inputs[i])
+		}
+		expr := mc.goValue(p.Type(), v, 0)
+		name := fmt.Sprintf("in%d", i)
+		decls = append(decls, fmt.Sprintf("\t%s := %s // %s", name, expr, paramName(p, i)))
+		argExprs = append(argExprs, name)
+	}
+	// pointer helper functions used
+	all := strings.Join(decls, "\n")
+	for _, p := range fn.Params {
+		collectPtrHelpers(p.Type(), qual, ptrHelpers)
+	}
+	var hk []string
+	for k := range ptrHelpers {
+		hk = append(hk, k)
+	}
+	sort.Strings(hk)
+	for _, k := range hk {
+		if strings.Contains(all, k+"(") {
+			sb.WriteString(ptrHelpers[k])
+		}
+	}
+	// option globals
+	var gsets []string
+	for _, g := range c.globalReads {
+		if g.global == nil || g.global.Pkg == nil || g.global.Pkg.Pkg != pkg {
+			continue
+		}
+		if strings.Contains(g.global.Name(), "$") {
+			continue
+		}
+		v := mc.val(g.init)
+		if v == nil {
+			continue
+		}
+		switch g.typ.Underlying().(type) {
+		case *types.Basic:
+			gsets = append(gsets, fmt.Sprintf("\t{ old := %s; %s = %s; defer func() { %s = old }() }", g.global.Name(), g.global.Name(), mc.goValue(g.typ, v, 0), g.global.Name()))
+		}
+	}
+	sort.Strings(gsets)
+	sb.WriteString("func TestVerifReplay(t *testing.T) {\n")
+	sb.WriteString(strings.Join(gsets, "\n") + "\n")
+	sb.WriteString(all + "\n")
+	sb.WriteString("\tdefer func() {\n\t\tif r := recover(); r != nil {\n\t\t\tfmt.Printf(\"VERIF-REPLAY outcome=panic value=%v\\n\", r)\n\t\t}\n\t}()\n")
+	// call
+	call := ""
+	sig := fn.Signature
+	if sig.Recv() != nil {
+		call = fmt.Sprintf("%s.%s(%s)", argExprs[0], fn.Name(), callArgs(sig, argExprs[1:]))
+	} else {
+		call = fmt.Sprintf("%s(%s)", fn.Name(), callArgs(sig, argExprs))
+	}
+	nres := sig.Results().Len()
+	var resNames []string
+	for i := 0; i < nres; i++ {
+		resNames = append(resNames, fmt.Sprintf("out%d", i))
+	}
+	if nres > 0 {
+		sb.WriteString("\t" + strings.Join(resNames, ", ") + " := " + call + "\n")
+		for _, r := range resNames {
+			sb.WriteString(fmt.Sprintf("\tfmt.Printf(\"VERIF-REPLAY %s=%%#v\\n\", %s)\n", r, r))
+		}
+	} else {
+		sb.WriteString("\t" + call + "\n")
+	}
+	// evaluate postconditions that are executable (no ghost intrinsics)
+	if o.Kind == "post" && c.fc != nil && len(c.fc.Olds) == 0 {
+		for i, en := range c.fc.Ensures {
+			if strings.Contains(en.Expr, "verif") && !strings.Contains(en.Expr, "verifForall") {
+				continue
+			}
+			args := append(append([]string{}, argExprs...), resNames...)
+			sb.WriteString(fmt.Sprintf("\tfmt.Printf(\"VERIF-REPLAY ensures%d=%%v // %s\\n\", %s(%s))\n", i, strings.ReplaceAll(en.Raw, "\"", "'"), en.Fn, strings.Join(args, ", ")))
+		}
+	}
+	sb.WriteString("\tfmt.Printf(\"VERIF-REPLAY outcome=returned\\n\")\n}\n")
+	testSrc := sb.String()
+	// write files + overlay
+	testFile := filepath.Join(scratch, fmt.Sprintf("replay_%d_test.go", time.Now().UnixNano()))
+	os.WriteFile(testFile, []byte(testSrc), 0o644)
+	ghostFile := filepath.Join(scratch, "ghost_gen.go")
+	os.WriteFile(ghostFile, []byte("//go:build verif\n// +build verif\n\n"+c.eng.ld.GhostSrc), 0o644)
+	pkgDir := repo
+	if rel := strings.TrimPrefix(pkg.Path(), modPath); rel != "" {
+		pkgDir = filepath.Join(repo, rel)
+	}
+	ov := map[string]map[string]string{"Replace": {
+		filepath.Join(pkgDir, "zz_verif_replay_test.go"):  testFile,
+		filepath.Join(pkgDir, "zz_verif_ghost_generated.go"): ghostFile,
+	}}
+	ovb, _ := json.Marshal(ov)
+	ovFile := filepath.Join(scratch, "overlay.json")
+	os.WriteFile(ovFile, ovb, 0o644)
+	ctx, cancel := context.WithTimeout(context.Background(), 120*time.Second)
+	defer cancel()
+	cmd := exec.CommandContext(ctx, "go", "test", "-tags", "verif", "-overlay", ovFile, "-vet=off", "-count=1", "-v", "-timeout", "60s", "-run", "^TestVerifReplay$", ".")
+	cmd.Dir = pkgDir
+	cmd.Env = goEnv()
+	var buf bytes.Buffer
+	cmd.Stdout = &buf
+	cmd.Stderr = &buf
+	cmd.Run()
+	res := buf.String()
+	reproduced := false
+	switch o.Kind {
+	case "post":
+		reproduced = strings.Contains(res, "=false //") || strings.Contains(res, "outcome=panic")
+	default:
+		reproduced = strings.Contains(res, "outcome=panic") || strings.Contains(res, "panic:")
+	}
+	var rep strings.Builder
+	fmt.Fprintf(&rep, "solver model (inputs):\n%s\n", firstLines(out, 30))
+	for _, w := range mc.warn {
+		fmt.Fprintf(&rep, "note: %s\n", w)
+	}
+	fmt.Fprintf(&rep, "\ngenerated test (run in %s with go test -tags verif -overlay ... -run '^TestVerifReplay$'):\n%s\n", pkgDir, testSrc)
+	fmt.Fprintf(&rep, "test output:\n%s\n", firstLines(res, 40))
+	fmt.Fprintf(&rep, "REPRODUCED=%v\n", reproduced)
+	return rep.String(), reproduced
+}
+
+func callArgs(sig *types.Signature, args []string) string {
+	if sig.Variadic() && len(args) > 0 {
+		args = append(append([]string{}, args[:len(args)-1]...), args[len(args)-1]+"...")
+	}
+	return strings.Join(args, ", ")
+}
+
+func collectPtrHelpers(t types.Type, qual types.Qualifier, out map[string]string) {
+	if pt, ok := t.Underlying().(*types.Pointer); ok {
+		el := pt.Elem()
+		if _, isSt := el.Underlying().(*types.Struct); !isSt {
+			els := types.TypeString(el, qual)
+			name := "verifPtr_" + sanitizeIdent(els)
+			out[name] = fmt.Sprintf("func %s(v %s) *%s { return &v }\n\n", name, els, els)
+		}
+	}
+}
+
+// rerunForValues re-solves the obligation with the winning solver and asks for the replay terms.
+func rerunForValues(o *Obligation, terms []*Term, scratch string) string {
+	c := o.Ctx
+	e := c.eng
+	hyps := relevantFacts(c, o.NFacts, o.Goal)
+	body := e.ts.Script("", e.tc.Datatypes(), hyps, o.Goal, terms)
+	var sp *solverSpec
+	for i := range solvers {
+		if solvers[i].name == o.Solver {
+			sp = &solvers[i]
+		}
+	}
+	if sp == nil {
+		return ""
+	}
+	file := filepath.Join(scratch, fmt.Sprintf("replay-%d.smt2", time.Now().UnixNano()))
+	txt := "(set-option :produce-models true)\n" + sp.pre + preludeVal + body.Text
+	os.WriteFile(file, []byte(txt), 0o644)
+	r := runSolver(context.Background(), *sp, file, 30, 0)
+	if r.status != "sat" {
+		return ""
+	}
+	return r.output
 }
 
 func propExplanation(prop string) string {
@@ -14,3 +712,5 @@ func propExplanation(prop string) string {
 }
 
 var explanations = map[string]string{}
+
+var _ = ssa.NaiveForm
